@@ -54,7 +54,7 @@ def task_ics(uid, occ, maxsim=0, owner=None, dur=None, method='PUBLISH', extra=(
 
 def request(items, method='PUBLISH', cal_maxsim=0, cal_extra=()):
     """items: list of dicts kind=add|cancel ...; cal_maxsim: a limit stated for the whole calendar (an event's own statement goes first)"""
-    L = ['BEGIN:VCALENDAR', 'VERSION:2.0', 'METHOD:' + method] + (['X-ECHS-MAX-SIMUL:%d' % cal_maxsim] if cal_maxsim else []) + list(cal_extra)
+    L = ['BEGIN:VCALENDAR', 'VERSION:2.0'] + (['METHOD:' + method] if method else []) + (['X-ECHS-MAX-SIMUL:%d' % cal_maxsim] if cal_maxsim else []) + list(cal_extra)      # no METHOD: add / replace
     for it in items:
         if it['kind'] == 'add':
             L += task_ics(it['uid'], it['occ'], it.get('text_maxsim', it.get('maxsim', 0)), it.get('owner_uid', it.get('owner_name')), it.get('dur'), extra=it.get('extra', ()), allday=it.get('allday', False), past_rule=it.get('past_rule', False))
@@ -362,6 +362,15 @@ def map_script(rnd, uidpool, peers=(1000, 1001, 1002, 0, 4242), nreq=8, listy=Fa
                 if y < 0.15: it['owner_uid'] = rnd.choice([1000, 1001, 1002, 4242])
                 elif y < 0.3: it['owner_name'] = rnd.choice(['alice', 'bob', 'carol', 'nobody-such'])
                 items.append(it)
+            if rnd.random() < 0.08:
+                # two calendars on one connection: a cancel request, then a calendar without METHOD (which means add / replace)
+                c_items = [{'kind': 'cancel', 'uid': rnd.choice(uidpool), 'peer': p}]
+                a_items = []
+                for _ in range(rnd.choice([1, 2])):
+                    it = {'kind': 'add', 'uid': rnd.choice(uidpool), 'occ': [FAR + rnd.randint(0, 50)], 'maxsim': 0, 'peer': p}; it['start'] = secs(min(it['occ'])); a_items.append(it)
+                metas[len(cmds)] = c_items + a_items
+                cmds.append(areq(rnd, p, request(c_items, 'CANCEL') + request(a_items, None)))
+                continue
             stale = rnd.random() < 0.12
             if stale:
                 # an outdated version of a task (every occurrence in the past) and its current version in one request, as echsq add
